@@ -95,6 +95,13 @@ def build(rng, op, sizes, den):
         return flat_sx(G.grid_simplex(rng, ny, den)) + f(tb(nx, ny)) + G.grid_dist(rng, nx, den, True) + G.grid_dist(rng, ny, den, True)
     if op == "abduce":
         return flat_sx(G.grid_simplex(rng, ny, den)) + f(tb(nx, ny)) + G.grid_dist(rng, nx, den, True)
+    if op in ("prod2", "prod3") and rng.chance(1, 3):
+        # tiny positive base-rate entries (exact dyadic operands, used for both element types): the joint base rate
+        # of the cell that bounds the uncertainty lies around or below machine epsilon but is not zero
+        e = rng.choice([8, 9, 12, 18, 20] if op == "prod3" else [12, 13, 24, 27, 30])
+        e = min(e, 20)
+        ws = [G.tiny_base_rate_grid_opinion(rng, n, den, e) for n in ((nx, nz) if op == "prod2" else (nx, nz, ny))]
+        return sum((flat_op(w) for w in ws), [])
     if op == "prod2":
         return flat_op(G.grid_opinion(rng, nx, den)) + flat_op(G.grid_opinion(rng, nz, den))
     if op == "prod3":
@@ -117,7 +124,7 @@ def gen(rng, tier):
              ("merge", {"X": 2, "Z": 3, "Y": 2}), ("merge", {"X": 3, "Z": 2, "Y": 3})]
     gid = 0
     for op, sizes in plan:
-        for r in range(reps if op != "merge" else 1):
+        for r in range((reps if op != "merge" else 1) * (3 if op in ("prod2", "prod3") else 1)):
             nums = build(rng, op, sizes, rng.choice([8, 16, 64]))
             gid += 1
             vs = variants(op, sizes)
